@@ -464,6 +464,10 @@ pub struct HSpec {
     /// NUL bytes appended to the name of every named (newc) entry, counted in its `namesize`: the reader
     /// strips them, so the entry still names its file — up to the name-length limit of `Reader::new`
     pub name_pad: usize,
+    /// RPMTAG_LONGFILESIZES (5008, INT64) with these values in ADDITION to FILESIZES: `get_file_entries` prefers it, and a
+    /// stripped entry's data length is taken from it — a lying, huge size over a short archive must end in an error
+    /// (seed C12-9: the content buffer pre-allocated with the header's size panics with "capacity overflow")
+    pub long_sizes: Option<Vec<u64>>,
 }
 
 pub fn stripped_entry(idx: u32, data: &[u8]) -> Vec<u8> {
@@ -545,6 +549,9 @@ pub fn hostile_pkg(s: &HSpec) -> Vec<u8> {
     if let Some(c) = &s.compressor {
         h.push(1125, 6, &TData::Str(c.clone()));
     }
+    if let Some(ls) = &s.long_sizes {
+        h.push(5008, 5, &TData::U64(ls.clone()));
+    }
     if let Some(a) = s.digest_algo {
         if s.digest_algo_as_string {
             h.push(5011, 6, &TData::Str(a.to_string().into_bytes()));
@@ -595,6 +602,12 @@ pub fn hostile_families() -> Vec<(&'static str, HSpec)> {
         ("dotdot-base-symlink-new", hs(&["/"], vec![hf(0, "../newlink", LNK | 0o777, "target", "")])),
         ("dotdot-base-inside", hs(&["/a/", "/b/"], vec![hf(0, "../b/f", r, "", "x")])),
         ("dot-base", hs(&["/a/"], vec![hf(0, ".", r, "", "x")])),
+        // sizes that lie: 64-bit sizes far beyond the archive (stripped entries take their data length from the header)
+        ("longsize-max", HSpec { long_sizes: Some(vec![u64::MAX]), ..hs(&["/a/"], vec![hf(0, "f", r, "", "short")]) }),
+        ("longsize-2p63", HSpec { long_sizes: Some(vec![1u64 << 63, 5]), ..hs(&["/a/"], vec![hf(0, "f", r, "", "short"), hf(0, "g", r, "", "12345")]) }),
+        ("longsize-2p40-second", HSpec { long_sizes: Some(vec![5, 1u64 << 40]), ..hs(&["/a/"], vec![hf(0, "f", r, "", "short"), hf(0, "g", r, "", "12345")]) }),
+        ("longsize-isize-max", HSpec { long_sizes: Some(vec![(1u64 << 63) - 1]), ..hs(&["/a/"], vec![hf(0, "f", r, "", "x")]) }),
+        ("longsize-true", HSpec { long_sizes: Some(vec![5, 5]), ..hs(&["/a/"], vec![hf(0, "f", r, "", "short"), hf(0, "g", r, "", "12345")]) }),
         // absolute base name (Path::join replaces the directory)
         ("abs-base", hs(&["/usr/"], vec![hf(0, "/decoy/file", r, "", "contained")])),
         ("abs-base-dotdot", hs(&["/usr/"], vec![hf(0, "/../decoy/file", r, "", "pwned")])),
